@@ -87,6 +87,18 @@ CLAIMED.update({
   ref="DESIGN.md 4/C08"),
 })
 
+CLAIMED.update({
+ "C07": dict(
+  text="Deductive proof of the acceptance side of certificate validation: in ValidateBlockCert every vote that is added to the counted voter set "
+       "has passed, in the same loop iteration, the approved-committee-member, round, voted-hash and parent-hash checks (gate obligations: the stated "
+       "rejection condition forces the error return, and the check dominates every call of Set.Add); the final quorum test rejects whenever the "
+       "cardinality of the voter SET (distinct addresses) is below threshold minus subtrahend; GetCommitteeVotesThreshold/GetCommitteeSize are exact "
+       "against the published table (<=8 validators) and round(size*threshold) / capped round(cnt*percent) otherwise.",
+  note="Trusted: golang-set is a mathematical set, signature recovery is a function of the vote, GetOnlineValidators/Approved are not opened "
+       "(committee draw determinism, the vote counter countVotes, vote admission AddVote and completeness 'a genuine quorum is always accepted' are not decided).",
+  ref="DESIGN.md 4/C07"),
+})
+
 PENDING = {
 }
 
